@@ -76,3 +76,8 @@ def buffer_replay(isput):
                             cands.append([c, isput, i, min(l0, c), len(ds)] + ds + [intr])
         return scenario_sweep(src, cands)
     return f
+
+
+def resource_replay(g, ob, vals, res):
+    src = os.path.join(VERIF, 'replay', 'resource_scn.c')
+    return scenario_sweep(src, [[k] for k in (1, 2, 3, 4, 5)])
